@@ -36,11 +36,12 @@ import (
 
 // Call is one unit of work for a worker (and the `input` of failures, so that replays can rerun it).
 type Call struct {
-	Kind string  `json:"kind"` // call | op | tpl
-	Fn   string  `json:"fn,omitempty"`
-	Args []VSpec `json:"args,omitempty"`
-	Tpl  string  `json:"tpl,omitempty"`
-	Coq  string  `json:"coq,omitempty"` // expr: the same tree as a term of the model's expr type
+	Kind  string  `json:"kind"` // call | op | tpl
+	Fn    string  `json:"fn,omitempty"`
+	Args  []VSpec `json:"args,omitempty"`
+	Tpl   string  `json:"tpl,omitempty"`
+	Coq   string  `json:"coq,omitempty"`   // expr: the same tree as a term of the model's expr type
+	Args2 []VSpec `json:"args2,omitempty"` // scale: the same tuple with every number written at another scale
 }
 
 func (c *Call) key() string {
@@ -51,6 +52,9 @@ func (c *Call) key() string {
 		return "expr:" + c.Tpl
 	}
 	b, _ := json.Marshal(c.Args)
+	if c.Kind == "scale" {
+		return "scale:" + c.Fn + string(b)
+	}
 	return c.Fn + string(b)
 }
 
@@ -177,6 +181,7 @@ func main() {
 		tasks = append(tasks, templateTasks(r.Fork("templates"), nTpl)...)
 		tasks = append(tasks, corrTasks(r.Fork("corr"), o)...)
 		tasks = append(tasks, exprTasks(r.Fork("expr"), o.Count(1500, 40000))...)
+		tasks = append(tasks, scaleTasks(r.Fork("scale"), o.Count(3000, 60000))...)
 	}
 
 	runTasks(tasks, nWorkers, lim, res)
@@ -241,7 +246,7 @@ func runTasks(tasks []*task, nWorkers int, lim limits, res *hx.Result) {
 						cr.skipped = true
 						continue
 					}
-					req := &Req{ID: id, Kind: c.Kind, Fn: c.Fn, Args: c.Args, Tpl: c.Tpl, Full: t.name == "corr" || t.name == "replay"}
+					req := &Req{ID: id, Kind: c.Kind, Fn: c.Fn, Args: c.Args, Tpl: c.Tpl, Args2: c.Args2, Full: t.name == "corr" || t.name == "replay" || t.name == "scale"}
 					cr.resp, cr.oc, cr.detail = rn.do(req)
 					if cr.oc == ocInternal {
 						// one retry with a fresh worker
@@ -394,6 +399,15 @@ func judge(cr *callResult, res *hx.Result) {
 				res.Notes = append(res.Notes, fmt.Sprintf("slow %.2fs: %s in %s", float64(out.US)/1e6, c.brief(), entry))
 			}
 			nontrivial = strings.Contains(c.Tpl, "@")
+		}
+	}
+	if c.Kind == "scale" && len(outs) == 2 && outs[0].St == "ok" && outs[1].St == "ok" {
+		// numerically equal operands written with different scales give equal results
+		res.OracleChecks++
+		if outs[0].RK != outs[1].RK || (outs[0].RK != "error" && outs[0].RV != outs[1].RV) { // error messages quote their arguments: not compared
+			scaled := &Call{Kind: "call", Fn: c.Fn, Args: c.Args2}
+			res.Fail("value:"+c.Fn+":equal-numbers-different-scale", c, fmt.Sprintf("%s -> %s %q but %s -> %s %q", (&Call{Kind: "call", Fn: c.Fn, Args: c.Args}).brief(),
+				outs[0].RK, abbreviate(outs[0].RV, 60), scaled.brief(), outs[1].RK, abbreviate(outs[1].RV, 60)))
 		}
 	}
 	if len(res.Notes) > 60 {
